@@ -24,6 +24,10 @@ CHECKS = {
    text="Proof: as C14 with abstract state kv, the list of (key, value) pairs; Key() and Value() are fst/snd of the same head; predicates and join functions are applied to (fst, snd) in that order; Map is verified against mapv (values changed, keys kept); ToSeq/FromSeq against flat-maps between pair lists and plain lists using the trait/seq interface contract.",
    note="Trusted: as C14.",
    tech="contract-based deductive verification: interface abstract state, model clauses, object invariants, loop invariants over recursive list spec functions", ref="6/C15"),
+ "C04": dict(
+   text="Proof: Lens[S,A] is a pair of abstract functions get/put of the instance; Get/Put contracts say what is read and that *s becomes put(*s,a) with the same pointer returned and nothing else modified. join, fmap (Getter), cmap (Setter), codec (BiMap), lensM, shape2..9 (against Lens2..9, positionally) and iso/morphism (against Isomorphism, loop invariant over a fold that skips nil entries) are verified against these contracts through model clauses; constructors are verified to return instances with those models; the lens laws for Join and BiMap and the Forward/Inverse round trip are SMT lemmas over the models (lawful components => lawful composite).",
+   note="Trusted: as C20; conversions in BiMapS/B/I/F are uninterpreted (their being mutually inverse is the hypothesis of the bimap lemmas); maps are total SMT arrays (a nil map is not modelled); the morphism round-trip lemma is stated for one iso - for several isos it needs pairwise independent target foci (DESIGN section 7); ForProductN/ForShapeN constructors belong to C01/C02.",
+   tech="contract-based deductive verification: ghost-method models of interface instances, behavioural subtyping, SMT lemmas over the models", ref="6/C04"),
 }
 
 NA_REASON = "check not built yet in this session (engine under construction; build order in DESIGN.md section 12)"
